@@ -21,13 +21,13 @@ META = {
     "level_note": "Trusted: Coq kernel, extraction (ExtrOcamlBasic), OCaml driver, Python harness (interning of strings / floats into cells). Oracles: pandas dtype inference of the id column (flag ityp, read from the real DataFrame), geff validate_tracklets / validate_lineages (their answers during the implementation run are recorded and given to the model), geff read_to_memory (the arrays it returns are the model's input on the GEFF path). Modelled not verified: pandas Series.unique/map/is_unique, numpy column_stack, networkx node/edge insertion. Not modelled: CSV text parsing, numpy dtype coercion of values (an empty cell of a mapped column is imported as NaN / the string 'nan'), ast.literal_eval of list-like strings, None values inside a name map, segmentation and node_features arguments, edge properties, SolutionTracks construction (it adds track_id / lineage_id when absent).",
     "design_ref": "DESIGN.md section 9 (C12)",
     "assumptions": [
-        "name map side conditions of the value theorems: keys and the columns used in list mappings are pairwise distinct (NoDup (keys ++ multi columns)); otherwise a mapping is silently lost or takes another column's values (Examples C12_clash_*; confirmed on the implementation)",
-        "a column literally named 'id' that is not the id column must itself be duplicate-free, else the import raises ValueError (raw-column uniqueness check before renaming)",
-        "non-integer ids: a parent that is not an id is treated as 'no parent' (link silently dropped, no ValueError) - Example C12_unknown_parent_accepted_when_renumbered; the rejection theorem for unknown parents holds for integer-typed ids only",
-        "integer-typed ids: parent cells are integer-valued numbers or empty (None/NaN/NA); an empty-string parent in a DataFrame raises ValueError from int('')",
-        "no id cell is empty and -1 is not an id; every mapped custom column has at least one non-empty cell (else AttributeError from geff_spec, F-12b); list mappings combine numeric columns only (numpy would cast mixed columns to strings)",
-        "a mapped track_id / lineage_id column that does not validate as tracklets / lineages is dropped with a warning (by design) and recomputed by SolutionTracks",
-        "GEFF: in-memory part only (after geff read_to_memory); edge properties ignored",
+        "domain limit (name map): keys and the columns used in list mappings are pairwise distinct (NoDup (keys ++ multi columns)); otherwise a mapping is silently lost or takes another column's values (Examples C12_clash_two_list_mappings / C12_clash_key_named_as_list_column; correspondence-only harness modes clash_*)",
+        "domain limit (parent encoding): with integer-typed ids the parent cells are integer-valued numbers or empty (None/NaN/NA); an empty-string parent in a DataFrame raises ValueError from int('') (Example C12_empty_string_parent_integer_ids; correspondence-only mode emptystr_int). With renumbered ids '' means no parent",
+        "domain limit (ids): no id cell is empty, -1 or ''; float ids containing NaN are outside the model",
+        "domain limit (values): every mapped custom column has at least one non-empty cell (else AttributeError from geff_spec, F-12b); list mappings combine numeric columns only (numpy would cast mixed columns to strings); an empty cell is imported as NaN / the string 'nan', not as an absent attribute",
+        "domain limit (exception type): a table without any column raises KeyError('id') instead of ValueError; pos mapped to one scalar column raises ValueError",
+        "by design: a mapped track_id / lineage_id column that does not validate as tracklets / lineages is dropped with a warning and recomputed by SolutionTracks (the value theorems assume the validator's answer for these two keys)",
+        "GEFF: in-memory part only (after geff read_to_memory); edge properties ignored; columns of list mappings are 1-D properties",
     ],
     "trusted": ["pandas is_integer_dtype / unique / map / is_unique; numpy column_stack; geff.validate.tracks (recorded answers); geff read_to_memory / write / write_arrays"],
 }
@@ -821,7 +821,7 @@ def run(ctx):
     stats["interned_strings"] = len(it.strs)
     stats["interned_float_tokens"] = len(it.toks)
     return {"evaluations": len(cases), "distinct_nontrivial": len(distinct),
-            "rule": "DataFrames of 0-8 rows: ids contiguous from 1 / from 0, sparse ints, strings, integer-valued floats, non-integral floats, object-dtype ints, nullable Int64; random forests (<= 2 children, rows in topological or shuffled order); root parents encoded as -1 / NaN / None / pd.NA / '' as the id kind allows; 2D and 3D dyadic positions (10% integer columns); standard or renamed column names; composite pos in axis or reversed order, or legacy z/y/x keys; 0-3 custom columns (int, float, str, bool, float with NaN, Int64 with NA, str with None) under their own or renamed keys; list-valued custom key of 1-3 columns; duplicate mappings of one column; valid / invalid track_id and lineage_id columns; ellipse_axis_radii lists; shuffled column and name-map order. Every well-formed mode is judged by the direct oracle (node per row, exact links, every mapped value, no unmapped key); 17 malformation classes x 20 must raise ValueError; 5 documented-discrepancy modes (raw 'id' column clash, '' parent with integer ids, unknown parent with renumbered ids, two clashing name maps) are compared with the model only. GEFF: stores written by geff.write from networkx graphs (axes or stacked position, renamed props, attributes missing on some nodes, list-valued key with a missing component, duplicate mapping, track/lineage props) and, for the structural malformations, by geff write_arrays without validation; the model's input is what geff read_to_memory returns. Non-trivial = at least 2 rows/nodes and at least one edge imported.",
+            "rule": "DataFrames of 0-8 rows: ids contiguous from 1 / from 0, sparse ints, strings, integer-valued floats, non-integral floats, object-dtype ints, nullable Int64; random forests (<= 2 children, rows in topological or shuffled order); root parents encoded as -1 / NaN / None / pd.NA / '' as the id kind allows; 2D and 3D dyadic positions (10% integer columns); standard or renamed column names; composite pos in axis or reversed order, or legacy z/y/x keys; 0-3 custom columns (int, float, str, bool, float with NaN, Int64 with NA, str with None) under their own or renamed keys; list-valued custom key of 1-3 columns; duplicate mappings of one column; valid / invalid track_id and lineage_id columns; ellipse_axis_radii lists; shuffled column and name-map order. Every well-formed mode is judged by the direct oracle (node per row, exact links, every mapped value, no unmapped key); an unrelated raw column named 'id' with repeated values (must be accepted); node id 0 forced into the role of a parent / a leaf / a root (parent value 0); 18 malformation classes x 20 must raise ValueError (incl. unknown parent with integer and with renumbered ids); 3 documented domain-limit modes ('' parent with integer ids, two clashing name maps) are compared with the model only. GEFF: stores written by geff.write from networkx graphs (axes or stacked position, renamed props, attributes missing on some nodes, list-valued key with a missing component, duplicate mapping, track/lineage props) and, for the structural malformations, by geff write_arrays without validation; the model's input is what geff read_to_memory returns. Non-trivial = at least 2 rows/nodes and at least one edge imported.",
             "samples": samples, "divergences": divergences, "violations": violations, "stats": stats}
 
 
